@@ -59,6 +59,8 @@ type appCase struct {
 	EmptyPermille int  `json:"empty_reads_permille,omitempty"`
 	Closer        bool `json:"writer_is_closer,omitempty"`
 	TolMs         uint `json:"eof_tolerance_ms,omitempty"`
+	PauseAtByte   int  `json:"source_silent_before_byte,omitempty"`
+	PauseMs       int  `json:"source_silent_ms,omitempty"`
 	// the source falls silent for SilenceMs after this many chunks have been written
 	SilenceAfterChunks int `json:"silence_after_chunks,omitempty"`
 	SilenceMs          int `json:"silence_ms,omitempty"`
@@ -122,6 +124,9 @@ func runAppTest(c *child.Ctx, app string, cases []appCase) (map[int]appObs, stri
 		for _, k := range cases {
 			if d := time.Duration(k.WriterUs) * time.Microsecond; k.WriterMode == "stallonce" && 75*time.Second+d > patience {
 				patience = 75*time.Second + d // a case that is held up on purpose
+			}
+			if d := time.Duration(k.PauseMs) * time.Millisecond; 75*time.Second+d > patience {
+				patience = 75*time.Second + d
 			}
 		}
 	wait:
@@ -1105,6 +1110,29 @@ func monC10(c *child.Ctx, replay json.RawMessage) {
 			k.Chunk, k.ReaderUs, k.EOFWithData = 0, 0, false
 			k.WriterMode, k.WriterUs = "stallonce", int(onceStalls(c)[c.Batch].Microseconds())
 			c.Count("sessions_with_one_write_held_up", 1)
+		}
+		if ob := c.Batch - 1; i == 13 && ob >= 0 && ob < len(onceStalls(c)) {
+			// the source falls silent once, for seconds, in the middle of a frame (a radio
+			// link that drops out): the frame is completed when the rest arrives
+			var in3, fr3 []byte
+			pauseAt := 0
+			nf := r.Range(4, 8)
+			for j := 0; j < nf; j++ {
+				f := gen.RandFrame(r)
+				for len(f.Bytes) > 200 || len(f.Bytes) < 12 {
+					f = gen.RandFrame(r)
+				}
+				if j == nf/2 {
+					pauseAt = len(in3) + r.Range(1, len(f.Bytes)-1)
+				}
+				in3 = append(in3, f.Bytes...)
+				fr3 = append(fr3, f.Bytes...)
+			}
+			k.Input, k.Expect, k.HasExpect = hexs(in3), hexs(fr3), true
+			k.Chunk, k.ReaderUs, k.EOFWithData, k.EmptyPermille = 0, 0, false, 0
+			k.WriterMode, k.WriterUs = "fast", 0
+			k.PauseAtByte, k.PauseMs = pauseAt, int(onceStalls(c)[ob].Milliseconds())
+			c.Count("sessions_with_a_silence_inside_a_frame", 1)
 		}
 		cases = append(cases, k)
 	}
